@@ -70,6 +70,29 @@ theorem parseFull_total (timeOk : Str → Bool) (l : Str) :
       left; exact ⟨m, n, u, h, by simp [hf]⟩
   · rw [hm]; right; rfl
 
+/-- `drivers.parseMsg` never raises: a line is delivered as a message or skipped. -/
+theorem driverParseMsg_total (timeOk : Str → Bool) (l : Str) :
+    (∃ m str n u h, driverParseMsg timeOk l = .msg m str n u h) ∨ driverParseMsg timeOk l = .none := by
+  unfold driverParseMsg
+  simp only
+  split
+  · right; rfl
+  · rcases parseFull_total timeOk (strip l) with ⟨m, n, u, h, hp⟩ | hp
+    · rw [hp]; left; exact ⟨m, _, n, u, h, rfl⟩
+    · rw [hp]; right; rfl
+
+/-- …and what it delivers is exactly the parse of the stripped line, whatever its length (no
+truncation): the cached string is the stripped line plus LF. -/
+theorem driverParseMsg_str (timeOk : Str → Bool) (l : Str) (m : Msg) (str n u h : Str)
+    (hd : driverParseMsg timeOk l = .msg m str n u h) : str = addLF (strip l) := by
+  unfold driverParseMsg at hd
+  simp only at hd
+  split at hd
+  · cases hd
+  · rcases parseFull_total timeOk (strip l) with ⟨m', n', u', h', hp⟩ | hp
+    · rw [hp] at hd; injection hd with _ h2; exact h2.symm
+    · rw [hp] at hd; cases hd
+
 /-- The second family of facts about the extracted escape table: escaped values never contain the
 tag separators. -/
 theorem tagEscape_table_sep : TableSep Gen.serverTagEscape := by decide
